@@ -104,6 +104,23 @@ def cli_check(chk, cases, results, rnd):
                                  % (how, name, r.returncode, "equals" if want_ok else "differs from"), {"case": c, "text": text})
             if before != after:
                 chk.mismatch("fmt-c/" + c["class"], "evy fmt -c modified the file", {"case": c, "text": text})
+    # several files in one invocation: exit 0 iff every one of them is in formatted form, whatever their order
+    nm = 0
+    for i, c in enumerate(sel[: 8 if chk.tier == "quick" else 40]):
+        formatted = results[c["id"]]["obs"]["formatted"]
+        unf = next((machine.text_of(v) for v in c["variants"] if machine.text_of(v) != formatted), None)
+        if unf is None:
+            continue
+        fa, fb, fu = (os.path.join(tmp, "m%d_%s.evy" % (i, x)) for x in ("a", "b", "u"))
+        for f, t in ((fa, formatted), (fb, formatted), (fu, unf)):
+            open(f, "w", encoding="utf-8", newline="").write(t)
+        for files, want_ok in (([fa, fb], True), ([fu, fa], False), ([fa, fu], False), ([fa, fu, fb], False), ([fu, fa, fb], False), ([fa, fb, fu], False)):
+            r = subprocess.run([common.EVY, "fmt", "-c"] + files, capture_output=True, timeout=30)
+            nm += 1
+            if (r.returncode == 0) != want_ok:
+                chk.mismatch("fmt-c-files/" + c["class"], "evy fmt -c on %d files (%s) exits %d" % (len(files), " ".join("formatted" if f != fu else "UNFORMATTED" for f in files), r.returncode),
+                             {"case": c, "files": [os.path.basename(f) for f in files]})
+    n += nm
     shutil.rmtree(tmp, ignore_errors=True)
     chk.traces += n
     chk.evaluations += n
